@@ -396,6 +396,8 @@ def handle (j : Json) : R Json := do
     let cur ← pvalOfJson (← fld j "init")
     let acts ← (← fldArr j "acts").mapM (fun a => do
       match ← arr a with
+      | [.str "begin", t] => return ChangeSection.Act.begin (← t.getNat?)
+      | [.str "finish", t] => return ChangeSection.Act.finish (← t.getNat?)
       | [.str "acquire", t] => return ChangeSection.Act.acquire (← t.getNat?)
       | [.str "release", t] => return ChangeSection.Act.release (← t.getNat?)
       | [.str "merge", t, p] => return ChangeSection.Act.merge (← t.getNat?) (← jvalOfJson p)
